@@ -517,6 +517,8 @@ pub fn eval_unit_name(
                     .as_bigint()
                     .and_then(|value| value.as_int())
                     .and_then(|value| <i32 as std::convert::TryFrom<i64>>::try_from(value).ok())
+                    // i32::MIN cannot be negated
+                    .filter(|&value| value != i32::MIN)
                     .ok_or_else(|| {
                         QueryError::generic(
                             "Exponents in the right hand side of conversions must be integers"
@@ -524,6 +526,13 @@ pub fn eval_unit_name(
                         )
                     })?;
                 let (left_unit, left_value) = eval_unit_name(ctx, &binop.left)?;
+                if right < 0
+                    && (left_value == Numeric::zero() || left_value == Numeric::Float(0.0))
+                {
+                    return Err(QueryError::generic(
+                        "Division by zero in the right hand side of conversion".to_string(),
+                    ));
+                }
                 Ok((
                     left_unit
                         .into_iter()
@@ -544,18 +553,23 @@ pub fn eval_unit_name(
             )),
             BinOpType::Mod => {
                 let (left_unit, left) = eval_unit_name(ctx, &binop.left)?;
-                let (right_unit, _right) = eval_unit_name(ctx, &binop.right)?;
+                let (right_unit, right) = eval_unit_name(ctx, &binop.right)?;
 
                 if left_unit != right_unit {
                     return Err(QueryError::generic(
                         "Modulo of values with differing dimensions is not meaningful".to_string(),
                     ));
                 }
-                Ok((left_unit, left))
+                if right == Numeric::zero() || right == Numeric::Float(0.0) {
+                    return Err(QueryError::generic(
+                        "Division by zero in the right hand side of conversion".to_string(),
+                    ));
+                }
+                Ok((left_unit, &left % &right))
             }
             BinOpType::And | BinOpType::Or | BinOpType::Xor => {
                 let (left_unit, left) = eval_unit_name(ctx, &binop.left)?;
-                let (right_unit, _right) = eval_unit_name(ctx, &binop.right)?;
+                let (right_unit, right) = eval_unit_name(ctx, &binop.right)?;
 
                 if !left_unit.is_empty() || !right_unit.is_empty() {
                     return Err(QueryError::generic(format!(
@@ -563,7 +577,20 @@ pub fn eval_unit_name(
                         binop.op
                     )));
                 }
-                Ok((left_unit, left))
+                let value = match (left.as_bigint(), right.as_bigint()) {
+                    (Some(left), Some(right)) => match binop.op {
+                        BinOpType::And => &left & &right,
+                        BinOpType::Or => &left | &right,
+                        _ => &left ^ &right,
+                    },
+                    _ => {
+                        return Err(QueryError::generic(format!(
+                            "Arguments to {:?} must be integers",
+                            binop.op
+                        )))
+                    }
+                };
+                Ok((left_unit, Numeric::from(value)))
             }
         },
         Expr::Mul { ref exprs } => {
